@@ -151,12 +151,14 @@ func run(c *fw.Ctx) {
 			{"mini", 16, []int{1, 2, 3, 4, 5}, []int{0, 1}},
 			{"mini", 9, []int{1, 2, 3}, []int{2}},
 			{"flat3", 14, []int{1, 2, 3, 4, 5}, []int{0, 1}},
+			{"person", 11, []int{1, 2, 3, 4}, []int{0, 1}},
 		}
 	} else {
 		cfgs = []cfg{
 			{"mini", 12, []int{1, 2, 3, 4}, []int{0, 1}},
 			{"mini", 6, []int{1, 2, 3}, []int{2}},
 			{"flat3", 10, []int{1, 2, 3, 4}, []int{0, 1}},
+			{"person", 7, []int{1, 2, 3}, []int{1}},
 		}
 	}
 	var bd []string
